@@ -189,8 +189,7 @@ def gen_case(rng, kind, flavour=None, n=None, static=False, cmap=None, nflows=No
             sizes = rng.choice([[100], [100, 300], [40, 700, 1500], [1000, 3000]])
     n = n or rng.randint(3, 70)
     arr = vnet.gen_arrivals(rng, len(cfg["flows"]), flavour, n, sizes, None, burst_p=0.5, flows=cfg["flows"])
-    for a in arr:
-        a["age"] = 0
+    # (packets keep their random "age": creation time != arrival time at the scheduler)
     if static:
         for a in arr:
             a["t"] = 0
